@@ -20,6 +20,11 @@ the comparison hyperplanes the code looks at, and on every cell z3 decides
     contains (x, y) and whose vertical extent (layer bottom .. layer top or
     ground surface) contains z.
 
+Search aids include quadtrees built over a column SUBSET with the real
+column_quadtree(columns).  `history` tasks run query -> real rotate()/translate()
+on the SAME object -> query (both points symbolic) and decide the second answer
+against the oracle of the transformed node positions (task_history).
+
 The point's bounding box (geometry bounds + 10 % on each side) is cut into
 sub-boxes which run as parallel tasks.  Thorough tier only: column_track on
 tiny rectangular grids (see task_track).
@@ -715,7 +720,7 @@ def history_plan(tier):
         ('rect33', None, 'plain', 0, T, 'guess4', 2, 2),
         ('rect33', None, 'guess2', 8, [], 'plain', 2, 2),
         ('rect33', None, 'plain', 7, T, 'block', 2, 2),
-        ('mix5', None, 'plain', 2, T + RC, 'guess3', 2, 2),
+        ('mix5', None, 'plain', 2, RC, 'guess3', 2, 2),
         ('mix5', None, 'plain', 4, R37, 'sqtree:odd+cols:odd', 2, 2),
     ]
     if tier == 'quick': return quick
@@ -865,24 +870,39 @@ def run(tier, seed, rep):
                    'farther than tau = 1e-6 * (larger side of the bounding box) from every column edge LINE',
                    'elevation z: any real in [lowest layer bottom - 10 % (g2sub: from the third layer bottom below the lowest surface), max(top, highest surface) + 10 %], farther than tau_z = 1e-6 * height from every layer boundary and every column surface',
                    '%d aid configurations in total: none / quadtree / bounding rectangle / boundary polygon / guess (quick: 3 per geometry; thorough: EVERY column of rect33, rot37, mix5 as guess) / '
-                   'column subsets / combinations' % nconf]
+                   'column subsets / quadtrees built over a column subset with mulgrid.column_quadtree(columns) (alone, with the subset as column list, with a guess, with bounds) / combinations' % nconf,
+                   '%d histories on ONE geometry object: first query (aid configuration; symbolic point (x1, y1) within 5 %% of the column size of a named column centre) -> '
+                   'real in-place rotate(angle[, centre]) / translate(shift) / both / nothing, with CONCRETE parameters (37 deg about the grid centre, -20 deg about (1, 1), shift (7, -13, 5)) -> '
+                   'second query (aid configuration built from the object as it is then, or block_name_containing_point with symbolic z) with a symbolic point anywhere in the '
+                   '10 %%-enlarged bounding box of the transformed geometry; both answers decided against the oracle of the node positions after the operations' % nhist]
     rep.outside += ['symbolic geometries (node positions are concrete numbers; only the point is symbolic)',
                     'points within tau of an edge line, elevations within tau_z of a layer boundary or surface (the quantifier excludes them)',
                     'full shipped geometries (sub-meshes of g2, g5, g7 cut by breadth-first neighbourhood + real reduce())',
                     'IEEE rounding inside in_polygon / norm (exact real arithmetic over the exact values of the float coordinates)',
-                    'wells, blockmap argument, naming conventions other than 0'] + TRACK_OUTSIDE
+                    'wells, blockmap argument, naming conventions other than 0',
+                    'histories: symbolic rotation angles / shifts (parameters of the operations are concrete); operations other than rotate / translate between two queries '
+                    '(refine, node moves, column deletion); a quadtree or bounding polygon BUILT BEFORE an operation and used after it (stale by construction: the caller must rebuild it); '
+                    'column_track after an operation (rotated columns are not axis-parallel)',
+                    'subset quadtrees as built internally by fit_columns / fit_surface (only column_quadtree(columns) handed to column_containing_point is checked)'] + TRACK_OUTSIDE
     rep.assumptions += ['point farther than tau from every edge line (encoded as |a x + b y + c| > tau * N with N a rational upper bound of |(a,b)|)',
                         'stub: norm() of a symbolic vector is kept as its square, two norms are compared through their squares (vx/snorm.py; sqrt is monotone)',
                         'oracle: a column contains a point iff the point satisfies all half-planes of the (convex) column polygon, or of one ear-clipping triangle for a non-convex one',
                         'oracle: block (layer l, column k) exists iff surface_k > bottom_l and spans bottom_l .. min(top_l, surface_k), the top layer\'s block reaching up to a surface above the top',
-                        'set iteration order inside the real code (neighbour sets) varies between processes, so path counts may differ slightly from run to run; verdicts do not']
+                        'set iteration order inside the real code (neighbour sets) varies between processes, so path counts may differ slightly from run to run; verdicts do not',
+                        'histories: one object graph per task, reset at the start of every path by restoring the attribute dictionaries of the geometry, its nodes, columns, layers and '
+                        'connections to their freshly built state (arrays/containers copied, attributes added since removed) - equivalent to building a new object, but keeps object '
+                        'identities (set iteration order) the same on every path; the first point stays near one column centre so that the path count is (few) x (paths of the second query)',
+                        'oracle of a subset-quadtree search: the column containing the point if it is one of the columns the quadtree was built over (or the guess / a neighbour of the guess '
+                        'inside the column list), else None']
     rep.trusted += ['harness/c12_geos.py builder (assembles a geometry the way mulgrid.read() does) and the exact oracle formulas in harness/C12.py']
     rep.functions.update(['mulgrids.py:mulgrid.column_containing_point', 'mulgrids.py:quadtree.search', 'mulgrids.py:quadtree.leaf',
                           'mulgrids.py:quadtree.search_wave', 'mulgrids.py:column.contains_point', 'mulgrids.py:column.near_point',
                           'geometry.py:in_polygon', 'geometry.py:in_rectangle', 'geometry.py:rectangles_intersect',
-                          'mulgrids.py:mulgrid.block_name_containing_point', 'mulgrids.py:mulgrid.layer_containing_elevation'])
+                          'mulgrids.py:mulgrid.block_name_containing_point', 'mulgrids.py:mulgrid.layer_containing_elevation',
+                          'mulgrids.py:mulgrid.column_quadtree', 'mulgrids.py:mulgrid.column_bounds', 'mulgrids.py:mulgrid.rotate', 'mulgrids.py:mulgrid.translate',
+                          'mulgrids.py:column.get_bounding_box'])
     rep.process_failures()
-    return rep.finish(rule='one obligation per (geometry, aid configuration, sub-box, path): pc AND NOT(oracle agrees) must be unsat; '
+    return rep.finish(rule='one obligation per (geometry, aid configuration or query/operation/query history, sub-box, path): pc AND NOT(oracle agrees) must be unsat; '
                            'a path is one cell of the arrangement of the hyperplanes the real code compares the point against; '
                            'distinct = distinct formulas by z3 AST hash per task')
 
